@@ -28,6 +28,10 @@ type OptionRule struct {
 }
 
 func (rule OptionRule) AsRewriteRule(pkg string) (option.RewriteRule, error) {
+	if err := oneMemberOnly("option rules", rule); err != nil {
+		return option.RewriteRule{}, err
+	}
+
 	if rule.Omit != nil {
 		selector, err := rule.Omit.AsSelector(pkg)
 		if err != nil {
